@@ -75,7 +75,7 @@ ErrOf(o) ==
       [] o = "panic"    -> <<"RuntimeError", "">>
       [] o = "panicerr" -> <<"RuntimeError", "">>
       [] OTHER          -> <<"RuntimeError", "">>
-IsFail(o) == o \in {"rpcerr", "rpcerrk", "plain", "wrapped", "custom", "panic", "panicerr"}
+IsFail(o) == o \in {"rpcerr", "rpcerrk", "plain", "wrapped", "wraprpc", "wraptyped", "custom", "panic", "panicerr"}
 
 IsStream(c) == c.k = "stream"
 
@@ -85,7 +85,7 @@ IsStream(c) == c.k = "stream"
 Levels == {"ERROR", "INFO", "DEBUG"}
 Msg(i) == IF i = 1 THEN "m1" ELSE "m2"
 LogSeqs(n) == UNION { {[i \in 1..k |-> <<f[i], Msg(i)>>] : f \in [1..k -> Levels]} : k \in 0..n }
-Outcomes == {"value", "rpcerr", "rpcerrk", "plain", "wrapped", "custom", "panic", "panicerr"}
+Outcomes == {"value", "rpcerr", "rpcerrk", "plain", "wrapped", "wraprpc", "wraptyped", "custom", "panic", "panicerr"}
 PvOpts == IF PvSet THEN {"ok", "bad"} ELSE {"ok"}
 
 UnaryCalls(nlogs, lvls) ==
